@@ -247,6 +247,95 @@ def swap_suite(ctx, vh):
                       no_input=True)
 
 
+def park_term(row):
+    steps = []
+    for op, ob in zip(row["ops"], row["obs"]):
+        o = {"E": "(PE %d)" % op.get("c", 0), "R": "(PR %d)" % op.get("c", 0), "C": "PCn", "F": "PFl"}[op["k"]]
+        steps.append("KPS %s %d %s" % (o, max(ob["q"], 0), gbool(ob["x"] == 1)))
+    return "KP %s %s %s" % (glist(ids(p) for p in row["progs"]), glist(steps), ids(row.get("recv") or []))
+
+
+def describe_park(row):
+    out = []
+    for op, ob in zip(row["ops"], row["obs"]):
+        o = {"E": "Emit by emitter %d (parked before sendBufferMu)" % op.get("c", 0), "R": "release emitter %d" % op.get("c", 0),
+             "C": "CONNECT reply (state=Connected, flush held)", "F": "flush of the CONNECT reply"}[op["k"]]
+        out.append("%s->sendBuffer=%d connected=%d" % (o, ob["q"], ob["x"]))
+    return "; ".join(out) + "; server received %s of %s" % (row.get("recv") or [], row["progs"])
+
+
+def park_straddles(ops):
+    """an Emit that reached the mutex before the CONNECT reply and is released after it"""
+    cpos = [i for i, op in enumerate(ops) if op["k"] == "C"]
+    if not cpos:
+        return False
+    pending = {}
+    for i, op in enumerate(ops):
+        c = op.get("c", 0)
+        if op["k"] == "E":
+            pending[c] = i
+        elif op["k"] == "R" and c in pending:
+            if pending.pop(c) < cpos[0] < i:
+                return True
+    return False
+
+
+def park_suite(ctx):
+    """client socket park/flush stage (in front of the packet queue): emitters and the CONNECT reply's goroutine
+    are parked right before they take sendBufferMu (instrumented mutexes, -tags sio_deadlock; no line of the repo
+    touched) and released in every order."""
+    vh = ctx.go_build(tags="verif,sio_deadlock")
+    if vh is None:
+        return
+    hdr = "From Coq Require Import List NArith ZArith Bool.\nImport ListNotations.\nFrom SioV Require Import Sio.PacketQueueParkCheck.\n"
+    theorems = ["C19_park_flush_pending", "C19_park_none_stranded"]
+    rows = ctx.vh_jsonl(vh, "queues", ["-mode", "forced", "-queue", "park", "-tier", ctx.tier, "-seed", ctx.seed])
+    if rows is None:
+        return
+    for i, r in enumerate(rows):  # environmental failures (connection set-up) are retried once
+        if r.get("err"):
+            rc, txt = ctx.vh(vh, ["queues", "-mode", "forced", "-queue", "park", "-nc", r["nc"], "-only", json.dumps(r["ops"] or [])]) \
+                if r.get("ops") else (1, "")
+            try:
+                r2 = json.loads(txt.strip().split("\n")[-1])
+                r2["cfg"] = r["cfg"]
+                rows[i] = r2
+            except Exception:
+                pass
+    errs = [r for r in rows if r.get("err") or any(ob["q"] < 0 for ob in r.get("obs") or [])]
+    if errs:
+        ctx.violation("park rig could not run %d schedules: %s" % (len(errs), errs[0].get("err")),
+                      {"kind": "correspondence-broken", "suite": "forced/park", "case": errs[0]}, no_input=True)
+        rows = [r for r in rows if r not in errs]
+    terms = [park_term(r) for r in rows]
+    for r in rows:
+        racing = park_straddles(r["ops"])
+        ctx.count(1, nontrivial_key=("park", json.dumps(r["ops"])) if racing else None, dist="forced:park:" + r["cfg"])
+    if rows:
+        ctx.sample({"suite": "forced/park", "case": rows[len(rows) // 2]})
+    bad_oracle, bad_agree = eval_both(ctx, "c19_park", hdr, terms, shard=400)
+    ctx.obligation("correspondence:forced/park", "correspondence", not bad_agree,
+                   "%d schedules, %d disagree with the model" % (len(rows), len(bad_agree)))
+    ctx.obligation("oracle:forced/park", "oracle", not bad_oracle,
+                   "%d schedules, %d violate the property" % (len(rows), len(bad_oracle)))
+    for i in sorted(bad_oracle, key=lambda i: len(rows[i]["ops"]))[:3]:
+        r = rows[i]
+        ctx.fail_or_known(None,
+                          "client socket: a packet emitted around the CONNECT reply is parked in sendBuffer after the "
+                          "reply's flush has run (nothing flushes it, later emits queue behind it), or is lost / duplicated "
+                          "/ overtaken: %s" % describe_park(r),
+                          {"kind": "failing-input", "engine": "queues", "queue": "park", "nc": r["nc"], "ops": r["ops"],
+                           "observed": r["obs"], "received": r.get("recv"),
+                           "replay_cmd": "vh(-tags verif,sio_deadlock) queues -mode forced -queue park -nc %d -only '%s'"
+                                         % (r["nc"], json.dumps(r["ops"]))})
+    if bad_agree and not bad_oracle:
+        r = rows[bad_agree[0]]
+        ctx.violation("client socket park/flush stage no longer behaves like the model Sio/PacketQueuePark.v over "
+                      "PipelineConn.cstep_fix (%d of %d forced schedules differ); the theorems %s are about the model; first "
+                      "differing schedule: %s" % (len(bad_agree), len(rows), ", ".join(theorems), describe_park(r)),
+                      {"kind": "correspondence-broken", "suite": "forced/park", "theorems": theorems, "case": r}, no_input=True)
+
+
 def stress_suite(ctx, vh):
     """Real preemption, no hooks: producers and polling consumers run freely; nothing but the queue's own
     signalling may deliver (poll timeout 60 s).  Covers what the gate cannot place (a thread between the
@@ -340,12 +429,13 @@ def run(ctx):
                        "a non-blocking send on a capacity-1 channel succeeds iff the channel is empty",
                        "the Go scheduler eventually runs a runnable goroutine (progress theorems are stated as "
                        "bounded progress of the consumer running alone)"]
-    ctx.proofs(modules=["Eio/PollQueueCheck", "Sio/PacketQueueCheck", "Eio/PollQueueSwapCheck"])
+    ctx.proofs(modules=["Eio/PollQueueCheck", "Sio/PacketQueueCheck", "Eio/PollQueueSwapCheck", "Sio/PacketQueueParkCheck"])
     vh = ctx.go_build()
     if vh is None:
         return
     forced_suite(ctx, vh, "poll")
     forced_suite(ctx, vh, "packet")
     swap_suite(ctx, vh)
+    park_suite(ctx)
     stress_suite(ctx, vh)
     live_suite(ctx, vh)
